@@ -2,7 +2,7 @@
 machine; optional jobs may end inconclusive without changing the exit code (they are reported in evidence)."""
 import random
 
-BUDGET = {'quick': 8 * 60, 'thorough': 30 * 60}
+BUDGET = {'quick': 8 * 60, 'thorough': 12 * 60}
 
 
 def J(id, fn, params=None, required=True, timeout=300, engine='S', mem_gb=8):
@@ -28,11 +28,11 @@ def codec_c12(tier, seed):
         for sk in DEC_SKELETONS_THOROUGH:
             jobs.append(J('decoder_format[%s]' % sk, 'jobs.codec:decoder_format', dict(skeleton=sk), required=False, timeout=1500))
         for shape, bits in [([4], 10), ([5], 7), ([4, 5], 3), ([5, 4], 3), ([1, 4, 5], 2), ([4, 4, 4], 2), ([4, 1, 4], 2), ([5, 5], 3)]:
-            jobs.append(J('roundtrip%s/b%d' % (shape, bits), 'jobs.codec:roundtrip', dict(shape=shape, bits=bits), required=False, timeout=2400))
+            jobs.append(J('roundtrip%s/b%d' % (shape, bits), 'jobs.codec:roundtrip', dict(shape=shape, bits=bits), required=False, timeout=900))
         for shape, bits in [([4, 4], 5), ([4, 1, 5], 3), ([4, 4, 4], 2)]:
-            jobs.append(J('lines_only%s/b%d' % (shape, bits), 'jobs.codec:lines_only', dict(shape=shape, bits=bits), required=False, timeout=2400))
+            jobs.append(J('lines_only%s/b%d' % (shape, bits), 'jobs.codec:lines_only', dict(shape=shape, bits=bits), required=False, timeout=900))
         for field in range(5):
-            jobs.append(J('roundtrip_field%d_full' % field, 'jobs.codec:roundtrip_one_field', dict(field=field, bits=30), required=False, timeout=2400))
+            jobs.append(J('roundtrip_field%d_full' % field, 'jobs.codec:roundtrip_one_field', dict(field=field, bits=30), required=False, timeout=900))
     return jobs
 
 
@@ -60,8 +60,8 @@ def codec_c17(tier, seed):
         jobs.append(J('decoder_run[%s]/release' % sk, 'jobs.codec:decoder_run', dict(skeleton=sk, flavour='mir_rel'), timeout=200))
     jobs.append(J('decoder_run[slot0,cont13]/release', 'jobs.codec:decoder_long_run', dict(slot=0, cont=13, flavour='mir_rel'), timeout=200))
     if tier == 'thorough':
-        jobs.append(J('decoder_bytes[4]', 'jobs.codec:decoder_bytes', dict(length=4), required=False, timeout=1200))
-        jobs.append(J('decoder_bytes[5]', 'jobs.codec:decoder_bytes', dict(length=5), required=False, timeout=2400))
+        jobs.append(J('decoder_bytes[4]', 'jobs.codec:decoder_bytes', dict(length=4), required=False, timeout=900))
+        jobs.append(J('decoder_bytes[5]', 'jobs.codec:decoder_bytes', dict(length=5), required=False, timeout=900))
         for slot in range(5):
             for c in (1, 5, 11, 15, 25, 40):
                 jobs.append(J('decoder_run[slot%d,cont%d]' % (slot, c), 'jobs.codec:decoder_long_run', dict(slot=slot, cont=c), required=False, timeout=600))
@@ -91,6 +91,8 @@ TREES_QUICK = [
     ('concat[orig2,empty,rawstr1]', CC(O('??'), RS(''), RS('!'))),
     ('concat[empty,orig2,empty]', CC(RS(''), O('??'), O('', 'e.js'))),
     ('single[orig3]', CC(O('???'))),
+    ('orig: a 16-character statement, then another (VLQ digit border)', O('aaaaaaaaaaaaaaa;?')),
+    ('concat[rawstr 16 chars,orig2] (column delta 16)', CC(RS('xxxxxxxxxxxxxxxx'), O('??'))),
     ('empty[]', CC()),
 ]
 TREES_THOROUGH = [
@@ -279,6 +281,8 @@ COMBINED_QUICK = [
     ('combined: outer name resolved by pass-through first', SMC('abcd', 'ACAAA,CDAEA', ('i.js', 'o.js'), 'AAAA,EAAE', ('q.js',), 'xyzw', outer_names=('zz',), inner_contents=('xyzw',))),
     ('combined under concat', CC(SMC('ab', 'AAAA,CAA?', ('i.js',), 'AAAA,CAAE', ('q.js',), 'xyz'), RS('!'))),
     ('combined: next line passes through to another source on the next original line', SMC('ab\ncd', 'AAAA;ACCA', ('i.js', 'o.js'), 'AAAA', ('q.js',), 'xyz\nuv', outer_contents=('xyz\nuv', 'o1\no2'))),
+    ('combined: inner source itself registered before an inner-map source', SMC('ab\ncd', 'AAAA;AAC?', ('i.js',), ';AAAA', ('q.js',), 'xyz\nuv', inner_contents=('q1',), remove=False)),
+    ('combined: named then unnamed outer segment collapse onto one inner segment', SMC('abcd', 'AAAAA,CAA?', ('i.js',), 'AAAA', ('q.js',), 'xyzw', outer_names=('xy',), inner_contents=('xyzw',))),
     ('combined: lines resolve to different inner sources on consecutive original lines', SMC('ab\ncd', 'AAAA;AACA', ('i.js',), 'AAAA;ACCA', ('q.js', 'r.js'), 'xyz\nuv', inner_contents=('q1\nq2', 'r1\nr2'))),
 ]
 
@@ -309,7 +313,7 @@ def combined_jobs(props):
     def f(tier, seed):
         jobs = [J('tree:' + t[0], 'jobs.streams:tree_job', dict(tree=t[1], props=props), timeout=900) for t in COMBINED_QUICK]
         if tier == 'thorough':
-            jobs += [J('tree:' + t[0], 'jobs.streams:tree_job', dict(tree=t[1], props=props), required=False, timeout=3000) for t in COMBINED_THOROUGH]
+            jobs += [J('tree:' + t[0], 'jobs.streams:tree_job', dict(tree=t[1], props=props), required=False, timeout=900) for t in COMBINED_THOROUGH]
         return jobs
     return f
 
@@ -321,7 +325,7 @@ def sms_jobs(props, wild=False):
             jobs.append(J('tree:' + t[0], 'jobs.streams:tree_job', dict(tree=t[1], props=props), timeout=600))
         if tier == 'thorough' and not wild:
             for t in SMS_THOROUGH:
-                jobs.append(J('tree:' + t[0], 'jobs.streams:tree_job', dict(tree=t[1], props=props), required=False, timeout=3000))
+                jobs.append(J('tree:' + t[0], 'jobs.streams:tree_job', dict(tree=t[1], props=props), required=False, timeout=900))
         return jobs
     return f
 
@@ -338,7 +342,7 @@ def replace_jobs(props):
                 jobs.append(J('tree:' + t[0], 'jobs.streams:tree_job', dict(tree=t[1], props=props, what=['source'], subs=False), timeout=600))
         if tier == 'thorough':
             for t in REPLACE_THOROUGH:
-                jobs.append(J('tree:' + t[0], 'jobs.streams:tree_job', dict(tree=t[1], props=props), required=False, timeout=3000))
+                jobs.append(J('tree:' + t[0], 'jobs.streams:tree_job', dict(tree=t[1], props=props), required=False, timeout=900))
         return jobs
     return f
 
@@ -369,7 +373,7 @@ def views_jobs(tier, seed):
     if tier == 'thorough':
         for cat in (TREES_THOROUGH, REPLACE_THOROUGH, SMS_QUICK[4:], COMBINED_QUICK[:4], [(n, t) for (n, t, _) in C10_QUICK]):
             for t in cat:
-                jobs.append(J('views:' + t[0], 'jobs.streams:tree_job', dict(tree=t[1], props=['C07'], what=VIEWS, alphabet=t[2] if len(t) > 2 and isinstance(t[2], str) else 'q'), required=False, timeout=2400))
+                jobs.append(J('views:' + t[0], 'jobs.streams:tree_job', dict(tree=t[1], props=['C07'], what=VIEWS, alphabet=t[2] if len(t) > 2 and isinstance(t[2], str) else 'q'), required=False, timeout=900))
     return jobs
 
 
@@ -386,6 +390,7 @@ C10_QUICK = [
     ('cached(concat[rawstr,orig blank lines,rawstr]) x 2 symbolic ops', CA(CC(RS('x\n'), O('\n\n'), RS('y'))), dict(history_slots=2)),
     ('cached(concat[orig a,orig b other file]) x 2 symbolic ops', CA(CC(O('a'), O('b', 'b.js'), RS('!'))), dict(history_slots=2)),
     ('cached(cached(orig2)) x 2 symbolic ops', CA(CA(O('??'))), dict(history_slots=2, alt='uncached')),
+    ('cached(concat[orig a;,rawstr b/c/,orig d]) x 2 symbolic ops', CA(CC(O('a;'), RS('!\n!\n'), O('d?', 'b.js'))), dict(history_slots=2)),
     ('cached(concat[sms without contents,orig with content]) x 2 symbolic ops', CA(CC(SM('ab', 'AAAA', ('o.js',)), O('c?', 'b.js'))), dict(history_slots=2)),
     ('concat[cached(concat[orig x/??,orig c? b]),orig z c] (real rope.rs) after map', CC(CA(CC(O('x\n??'), O('c?', 'b.js'))), O('z', 'c.js')), dict(history=['map1'], alt='uncached', rope='real')),
     ('concat[cached(concat[rawstr a/b,rawstr c]),orig z] (real rope.rs) x 1 symbolic op', CC(CA(CC(RS('!\n!'), RS('!'))), O('z?')), dict(history_slots=1, alt='uncached', rope='real')),
@@ -413,9 +418,9 @@ def c10_jobs(tier, seed):
         for t in C10_THOROUGH:
             p = dict(tree=t[1], props=['C10'], alt='inner', alt_prop='C10', what=OBS10)
             p.update(t[2])
-            jobs.append(J('cached:' + t[0], 'jobs.streams:tree_job', p, required=False, timeout=3000))
+            jobs.append(J('cached:' + t[0], 'jobs.streams:tree_job', p, required=False, timeout=900))
             p2 = dict(p, what=['map0', 'map1', 'c0f1', 'c1f1', 'c0f0', 'c1f0', 'source'], history_slots=min(2, t[2]['history_slots']))
-            jobs.append(J('cached/maps-first:' + t[0], 'jobs.streams:tree_job', p2, required=False, timeout=3000))
+            jobs.append(J('cached/maps-first:' + t[0], 'jobs.streams:tree_job', p2, required=False, timeout=900))
     for t in C10_QUICK:
         p = dict(tree=t[1], props=['C10'], alt='inner', alt_prop='C10', what=OBS10)
         p.update(t[2])
@@ -449,7 +454,7 @@ C18_QUICK = [
 def c18_jobs(tier, seed):
     jobs = [J('threads:' + t[0], 'jobs.conc:conc_job', dict(tree=t[1], progs=t[2], max_switches=t[3]), timeout=900) for t in C18_QUICK]
     if tier == 'thorough':
-        jobs += [J('threads+2:' + t[0], 'jobs.conc:conc_job', dict(tree=t[1], progs=t[2], max_switches=t[3] + 3), required=False, timeout=3000) for t in C18_QUICK]
+        jobs += [J('threads+2:' + t[0], 'jobs.conc:conc_job', dict(tree=t[1], progs=t[2], max_switches=t[3] + 3), required=False, timeout=900) for t in C18_QUICK]
     return jobs
 
 
@@ -487,6 +492,7 @@ NEQ_QUICK = [
     ('sms inner map presence', _e(SMC('ab', 'AAAA', ('i.js',), 'AAAA', ('q.js',), 'xyz'), dict(SM('ab', 'AAAA', ('i.js',)), name='i.js'))),
     ('sms inner map', _e(SMC('ab', 'AAAA', ('i.js',), 'AAAA', ('q.js',), 'xyz'), SMC('ab', 'AAAA', ('i.js',), 'AAAC', ('q.js',), 'xyz'))),
     ('sms remove flag', _e(SMC('ab', 'AAAA', ('i.js',), 'AAAA', ('q.js',), 'xyz', remove=True), SMC('ab', 'AAAA', ('i.js',), 'AAAA', ('q.js',), 'xyz'))),
+    ('sms remove flag without original_source (content from the outer map)', _e(SMC('ab\ncd', 'AAAA;AACA', ('i.js',), 'AAAA', ('q.js',), None, outer_contents=('xy\nuv',), remove=True), SMC('ab\ncd', 'AAAA;AACA', ('i.js',), 'AAAA', ('q.js',), None, outer_contents=('xy\nuv',)))),
     ('sms original source', _e(SMC('ab', 'AAAA', ('i.js',), 'AAAA', ('q.js',), 'xyz'), SMC('ab', 'AAAA', ('i.js',), 'AAAA', ('q.js',), 'xyw'))),
     ('concat child', _e(CC(O('a'), RS('b')), CC(O('a'), RS('c')))), ('concat order', _e(CC(RS('a'), RS('b')), CC(RS('b'), RS('a')))),
     ('concat prefix', _e(CC(O('a'), RS('b')), CC(O('a'), RS('b'), RS('c')))), ('concat empty vs one', _e(CC(), CC(RS('a')))),
@@ -510,8 +516,8 @@ def eq_jobs(tier, seed):
         jobs.append(J('eq+history:' + name, 'jobs.eqhash:eqhash_job', dict(tree_a=b, tree_b=a, history_slots=1), timeout=600))
     if tier == 'thorough':
         for name, t, slots in EQ_QUICK:
-            jobs.append(J('eq+1:' + name, 'jobs.eqhash:eqhash_job', dict(tree_a=t, history_slots=slots + 1), required=False, timeout=3000))
-            jobs.append(J('eq/dyn+1:' + name, 'jobs.eqhash:eqhash_job', dict(tree_a=t, history_slots=min(slots, 1) + 1, dyn=True), required=False, timeout=3000))
+            jobs.append(J('eq+1:' + name, 'jobs.eqhash:eqhash_job', dict(tree_a=t, history_slots=slots + 1), required=False, timeout=900))
+            jobs.append(J('eq/dyn+1:' + name, 'jobs.eqhash:eqhash_job', dict(tree_a=t, history_slots=min(slots, 1) + 1, dyn=True), required=False, timeout=900))
     return jobs
 
 
@@ -522,8 +528,8 @@ def neq_jobs(tier, seed):
         if not dyn: jobs.append(J('neq/dyn+history:' + name, 'jobs.eqhash:eqhash_job', dict(tree_a=a, tree_b=b, relation='differ', dyn=True, history_slots=1), timeout=600))
     if tier == 'thorough':
         for name, (a, b, dyn) in NEQ_QUICK:
-            jobs.append(J('neq+2:' + name, 'jobs.eqhash:eqhash_job', dict(tree_a=a, tree_b=b, relation='differ', dyn=dyn, history_slots=2), required=False, timeout=3000))
-            jobs.append(J('neq/swapped+1:' + name, 'jobs.eqhash:eqhash_job', dict(tree_a=b, tree_b=a, relation='differ', dyn=dyn, history_slots=1), required=False, timeout=3000))
+            jobs.append(J('neq+2:' + name, 'jobs.eqhash:eqhash_job', dict(tree_a=a, tree_b=b, relation='differ', dyn=dyn, history_slots=2), required=False, timeout=900))
+            jobs.append(J('neq/swapped+1:' + name, 'jobs.eqhash:eqhash_job', dict(tree_a=b, tree_b=a, relation='differ', dyn=dyn, history_slots=1), required=False, timeout=900))
     return jobs
 
 
@@ -550,7 +556,7 @@ def c13_jobs(tier, seed):
         jobs.append(J('tree:' + t[0], 'jobs.streams:tree_job', dict(dict(tree=t[1], props=['C13'], alt=t[2]), **(t[3] if len(t) > 3 else {})), timeout=600))
     if tier == 'thorough':
         for t in C13_THOROUGH:
-            jobs.append(J('tree:' + t[0], 'jobs.streams:tree_job', dict(tree=t[1], props=['C13'], alt=t[2], alphabet=t[3] if len(t) > 3 else 'q'), required=False, timeout=3000))
+            jobs.append(J('tree:' + t[0], 'jobs.streams:tree_job', dict(tree=t[1], props=['C13'], alt=t[2], alphabet=t[3] if len(t) > 3 else 'q'), required=False, timeout=900))
     return jobs
 
 
@@ -584,7 +590,7 @@ def tree_jobs(props):
             jobs.append(J('tree:' + t[0], 'jobs.streams:tree_job', dict(tree=t[1], props=props, alphabet=t[2] if len(t) > 2 else 'q'), timeout=420))
         if tier == 'thorough':
             for t in TREES_THOROUGH:
-                jobs.append(J('tree:' + t[0], 'jobs.streams:tree_job', dict(tree=t[1], props=props, alphabet=t[2] if len(t) > 2 else 'q'), required=False, timeout=2400))
+                jobs.append(J('tree:' + t[0], 'jobs.streams:tree_job', dict(tree=t[1], props=props, alphabet=t[2] if len(t) > 2 else 'q'), required=False, timeout=900))
         return jobs
     return f
 
@@ -628,7 +634,7 @@ WI_QUICK = [('str ascii', 'a?c?', 'str'), ('str multi-byte', '\u00e9?\u20ac?\U00
 def rope_jobs(tier, seed):
     jobs = [J('rope:' + t[0], 'jobs.rope:rope_job', dict(program=t[1], observe=t[2]), timeout=600) for t in ROPE_QUICK]
     if tier == 'thorough':
-        jobs += [J('rope:' + t[0], 'jobs.rope:rope_job', dict(program=t[1], observe=t[2]), required=False, timeout=3000) for t in ROPE_THOROUGH]
+        jobs += [J('rope:' + t[0], 'jobs.rope:rope_job', dict(program=t[1], observe=t[2]), required=False, timeout=900) for t in ROPE_THOROUGH]
     return jobs
 
 
